@@ -6,7 +6,7 @@ from hypothesis import strategies as st
 
 from vlib import gens
 from vlib.core import unchanged, Prop, Sub, Violation, calling, check
-from vlib.oracles import bvls, lp_dist
+from vlib.oracles import rows_sharing_a_solution, bvls, lp_dist
 from vlib.systems import NOMINAL_RANGE, proportional_variant, Sys, matrix_system, target_rows
 
 HIGH_ACC = dict(solver="CLARABEL", tol_gap_abs=1e-9, tol_gap_rel=1e-9, tol_feas=1e-9, max_iter=500)
@@ -15,9 +15,11 @@ TOL = {"default": dict(cap=2e-2, frac=1e-2), "high": dict(cap=2e-3, frac=1e-6)}
 
 @st.composite
 def weights(draw, m, nrows):
-    kind = draw(st.sampled_from(["none", "none", "vector", "matrix"]))
+    kind = draw(st.sampled_from(["none", "none", "vector", "matrix", "inverse"]))
     if kind == "none":
         return None
+    if kind == "inverse":
+        return "inverse"            # relative errors: weights 1 / target (function level)
     if kind == "vector":
         return draw(gens.array((m,), 0.3, 3.0, styles=("raw", "int")))
     return draw(gens.array((nrows, m), 0.3, 3.0, styles=("raw",)))
@@ -29,9 +31,13 @@ def fit_case(draw, accuracy=None):
     sysd = draw(matrix_system(m=(1, 5), n=(1, 8), shape=shape))
     sysd, _prop = draw(proportional_variant(sysd, one_in=6))
     rows = draw(target_rows(sysd, ["interior", "interior", "facet", "vertex", "near_in", "near_out", "outside", "scaled_out", "below", "below", "random"], nrows=(1, 4)))
+    if draw(st.integers(0, 3)) == 0:
+        # a fine intensity ramp: the next target is a few 1e-6 (relative) away - another problem, not a repetition
+        f = 1.0 + draw(gens.log_uniform(1e-7, 1e-5))
+        rows.append(dict(rows[-1], b=(np.asarray(rows[-1]["b"], dtype=float) * f).tolist(), kind=rows[-1]["kind"] + "+ramp"))
     m = len(sysd["A"])
     W = draw(weights(m, len(rows)))
-    if W is not None:
+    if W is not None and not isinstance(W, str):
         W = np.maximum(np.asarray(W, dtype=float), 0.3).tolist()
     return dict(system=sysd, rows=rows, W=W, entry=draw(st.sampled_from(["function", "estimator"])),
                 accuracy=(draw(st.sampled_from(["default", "default", "high"])) if accuracy is None else accuracy),
@@ -45,7 +51,7 @@ def run_fit(sv: Sys, B, W, entry, opt):
         from dreye.api.optimize.lsq_linear import lsq_linear
 
         with calling("lsq_linear"):
-            X, Bp = lsq_linear(sv.A, B, W=(None if W is None else np.asarray(W, dtype=float)), return_pred=True, **sv.kwargs(), **opt)
+            X, Bp = lsq_linear(sv.A, B, W=(None if W is None else (W if isinstance(W, str) else np.asarray(W, dtype=float))), return_pred=True, **sv.kwargs(), **opt)
         return np.asarray(X), np.asarray(Bp)
     with calling("ReceptorEstimator.fit"):
         if W is None:
@@ -67,14 +73,25 @@ def body_fit(case):
     sv = Sys(case["system"])
     B = gens.with_layout(np.array([r["b"] for r in case["rows"]], dtype=float), case.get("layout"))
     W = case["W"]
-    if W is not None and np.ndim(W) == 2:
-        W = gens.with_layout(W, case.get("layout"))
+    entry = case["entry"]
+    Wcall = W
+    if isinstance(W, str):
+        # W="inverse": weights 1 / target; needs targets clearly above zero; offered by the function only
+        if np.all(B >= 0.05 * sv.extent):
+            W, Wcall, entry = (1.0 / B), "inverse", "function"
+        else:
+            W = Wcall = None
+    if W is not None and np.ndim(W) == 2 and not isinstance(Wcall, str):
+        W = Wcall = gens.with_layout(W, case.get("layout"))
     acc = case["accuracy"]
     opt = dict(HIGH_ACC) if acc == "high" else {}
     tol = TOL[acc]
     B0 = B.copy()
-    X, Bp = run_fit(sv, (gens.as_form(B, case["form"]) if case.get("form") else B), W, case["entry"], opt)
-    labs = sv.labels() + [f"entry:{case['entry']}", f"acc:{acc}", "W:" + ("none" if W is None else ("vector" if np.ndim(W) == 1 else "matrix"))] + (["proportional-sources"] if case.get("proportional") else [])
+    X, Bp = run_fit(sv, (gens.as_form(B, case["form"]) if case.get("form") else B), Wcall, entry, opt)
+    if np.ndim(X) == 2 and np.shape(X)[0] == B.shape[0]:
+        pairs = rows_sharing_a_solution(B, X, sv.lb, sv.ub, sv.Ap)
+        check(not pairs, "fit:rows-share-a-solution", f"rows {pairs} have different targets but bit-identical intensities")
+    labs = sv.labels() + [f"entry:{entry}", f"acc:{acc}", "W:" + ("none" if W is None else ("inverse" if isinstance(Wcall, str) else ("vector" if np.ndim(W) == 1 else "matrix")))] + (["proportional-sources"] if case.get("proportional") else [])
     check(np.array_equal(B, B0), "fit:targets-modified", "fit modified the caller's target array")
     # (a) shapes
     check(X.shape == (B.shape[0], sv.n) and Bp.shape == B.shape, "fit:shape", f"X {X.shape}, B_pred {Bp.shape} for {B.shape[0]} targets, {sv.n} sources")
